@@ -162,7 +162,15 @@ class Program:
     def fun_type(self, params, ret, throws=False):
         prod = self.new('product', *params)
         if throws:
-            e = self.gen_type(3) if self.rng.random() < 0.5 else self.new('symbol', self.rng.choice(['true', 'false']))
+            k = self.rng.random()
+            if k < 0.45:
+                # `throw(A, B, C)`: a sum of several compound types, kept in the order given (in the other Lexicon those operand
+                # nodes are made in another order, at other addresses)
+                e = self.new('sum', *[self.gen_type(1) for _ in range(self.rng.randint(2, 4))])
+            elif k < 0.75:
+                e = self.gen_type(3)
+            else:
+                e = self.new('symbol', self.rng.choice(['true', 'false']))
             return self.new('fun', prod, ret, e)
         return self.new('fun', prod, ret)
 
@@ -189,7 +197,13 @@ class Program:
             return self.new('encl', r.randint(0, 4), self.gen_expr(depth + 1))
         if k < 0.89:
             xl = self.new('xl', *[self.gen_expr(depth + 2) for _ in range(r.randint(0, 2))])
-            cons = self.new('construct', self.gen_type(2), self.new('encl', r.choice([1, 2]), xl))
+            # the arguments of a construction: an enclosure with any of the five delimiters (none at all included: `new T`), around an
+            # expression list or, for the bare forms, any expression / nothing
+            if r.random() < 0.6:
+                cons = self.new('construct', self.gen_type(2), self.new('encl', r.choice([1, 2]), xl))
+            else:
+                inner = r.choice([xl, self.new('phantom'), self.leaf()])
+                cons = self.new('construct', self.gen_type(2), self.new('encl', r.randint(0, 4), inner))
             if r.random() < 0.5:
                 return cons
             if r.random() < 0.5:
@@ -235,7 +249,12 @@ class Program:
         r = self.rng
         if r.random() < 0.45:
             self.nloc += 1
-            self.set('loc', v, r.randint(1, 400), r.randint(0, 100000), r.choice([0, 0, r.randint(1, 300)]))
+            if r.random() < 0.15:
+                # components at and near the ends of their 32-bit range (sentinels like "all ones", values past 2^31)
+                edge = lambda: r.choice([1, 2 ** 31 - 1, 2 ** 31, 2 ** 31 + 1, 2 ** 32 - 1, 2 ** 32 - 2, 3000000000, r.randint(1, 2 ** 32 - 1)])
+                self.set('loc', v, edge(), edge(), r.choice([0, edge()]))
+            else:
+                self.set('loc', v, r.randint(1, 400), r.randint(0, 100000), r.choice([0, 0, r.randint(1, 300)]))
         elif r.random() < 0.1:
             self.set('loc', v, 0, r.randint(1, 99), r.randint(1, 99))   # file 0: no token, whatever line/column say
         return v
